@@ -401,6 +401,21 @@ func NewUpstream(addr string, opt Opt) (_ Upstream, err error) {
 		return transport.NewReuseConnTransport(transport.ReuseConnOpts{DialContext: dialNetConn}), nil
 	case "https":
 		const defaultPort = 443
+		// Like tls and quic, derive the server name from the url host here.
+		// Leaving it to net/http mis-splits a bare IPv6 host ("2001:db8::1"
+		// becomes "2001:db8:").
+		tlsConfig := opt.TLSConfig.Clone()
+		if tlsConfig == nil {
+			tlsConfig = new(tls.Config)
+		}
+		if len(tlsConfig.ServerName) == 0 {
+			tlsConfig.ServerName = tryRemovePort(addrUrlHost)
+		}
+		// net/http cannot address a bare IPv6 url host (it takes the text
+		// after the last colon for a port). Add the brackets the url lacks.
+		if h := addrURL.Host; !strings.HasPrefix(h, "[") && strings.Count(h, ":") >= 2 {
+			addrURL.Host = "[" + h + "]"
+		}
 
 		idleConnTimeout := time.Second * 30
 		if opt.IdleTimeout > 0 {
@@ -429,7 +444,7 @@ func NewUpstream(addr string, opt Opt) (_ Upstream, err error) {
 			defer closeIfFuncErr(quicTransport)
 			addonCloser = quicTransport
 			t = &http3.RoundTripper{
-				TLSClientConfig: opt.TLSConfig,
+				TLSClientConfig: tlsConfig,
 				QUICConfig:      quicConfig,
 				Dial: func(ctx context.Context, _ string, tlsCfg *tls.Config, cfg *quic.Config) (quic.EarlyConnection, error) {
 					ua, err := udpBootstrap(ctx)
@@ -451,7 +466,7 @@ func NewUpstream(addr string, opt Opt) (_ Upstream, err error) {
 					c = wrapConn(c, opt.EventObserver)
 					return c, err
 				},
-				TLSClientConfig:     opt.TLSConfig,
+				TLSClientConfig:     tlsConfig,
 				TLSHandshakeTimeout: tlsHandshakeTimeout,
 				IdleConnTimeout:     idleConnTimeout,
 
